@@ -86,6 +86,12 @@ pub fn blocks(thorough: bool) -> Vec<Block> {
         b.push(Block::new(u_corpus("U_longstr2", verif_seed() + 8, 20_000, &["a", "b"], (1, 2), (50, 120)), thr(&[0], &[(1, 1)]), "r (corpus)"));
         b.push(Block::new(u_kind_pairs(2, 3, false), thr(&[0, X], &[(1, 1)]), "r x {{}, x}"));
     }
+    if thorough {
+        // the thorough space is a superset of the quick one: every quick block first, then the deeper ones
+        let mut all = blocks(false);
+        all.extend(b);
+        return all;
+    }
     b
 }
 
